@@ -134,10 +134,10 @@ func genMAC(s src, label string, idx int) hexb {
 type tcase struct {
 	Name   string `json:"name,omitempty"`
 	Note   string `json:"note,omitempty"`
-	Kind   string `json:"kind"`             // dhcp | dhcp-relay | pppoe | teardown | submgr
-	Path   string `json:"path"`             // first termination
-	Prefix string `json:"prefix"`           // how far establishment got
-	Second string `json:"second"`           // none | seq:<path> | parked:<path>
+	Kind   string `json:"kind"`              // dhcp | dhcp-relay | pppoe | teardown | submgr
+	Path   string `json:"path"`              // first termination
+	Prefix string `json:"prefix"`            // how far establishment got
+	Second string `json:"second"`            // none | seq:<path> | parked:<path>
 	ParkAt string `json:"park_at,omitempty"` // parked: the harness-owned fake in which the first termination is held
 	P      params `json:"p"`
 }
@@ -179,6 +179,15 @@ type params struct {
 	Hostname string `json:"hostname,omitempty"`
 }
 
+// sigKind: the component named in signatures (relayed and direct DHCP sessions end in the same handlers;
+// what is specific to a relayed session shows in the resource name, e.g. cache-circuit-id).
+func (tc *tcase) sigKind() string {
+	if tc.Kind == "dhcp-relay" {
+		return "dhcp"
+	}
+	return tc.Kind
+}
+
 func (tc *tcase) cell() string     { return tc.Kind + "/" + tc.Path + "/" + tc.Prefix }
 func (tc *tcase) shape() string    { return secondShape(tc.Second) }
 func (tc *tcase) fullCell() string { return tc.cell() + "/" + tc.Second }
@@ -207,7 +216,9 @@ type cellSpec struct {
 	Kind, Path, Prefix, Second, ParkAt string
 }
 
-func (c cellSpec) key() string { return c.Kind + "/" + c.Path + "/" + c.Prefix + "/" + c.Second + "@" + c.ParkAt }
+func (c cellSpec) key() string {
+	return c.Kind + "/" + c.Path + "/" + c.Prefix + "/" + c.Second + "@" + c.ParkAt
+}
 
 // genCommon draws the parameters every kind shares.
 func genCommon(s src, p *params) {
@@ -284,6 +295,12 @@ func execute(t testing.TB, tc *tcase) *result {
 }
 
 var (
+	collectMode = os.Getenv("C16_COLLECT") != ""
+	collected   = map[string]int{}
+	collectedEx = map[string]string{}
+)
+
+var (
 	cellMu     sync.Mutex
 	cellCounts = map[string]int{} // kind/path/prefix -> cases
 	pairCounts = map[string]int{} // kind/path -> cases
@@ -300,6 +317,18 @@ func check(outer *testing.T, t vstat.Fataler, tc *tcase) {
 	}
 	history := func() string { return "case: " + jsonOf(tc) + "\n" + strings.Join(res.log, "\n") }
 	var kfcls []string
+	if collectMode {
+		// development aid (C16_COLLECT=1): tally every signature instead of stopping at the first unlisted one
+		cellMu.Lock()
+		for _, v := range res.viol {
+			if collected[v.Sig] == 0 {
+				collectedEx[v.Sig] = v.Msg + "\n" + history()
+			}
+			collected[v.Sig]++
+		}
+		cellMu.Unlock()
+		res.viol = nil
+	}
 	for _, v := range res.viol {
 		if !vstat.IsListed(v.Sig) {
 			saveViolation(tc, v)
@@ -370,6 +399,21 @@ func saveViolation(tc *tcase, v violation) {
 func noteCells(test string) {
 	cellMu.Lock()
 	defer cellMu.Unlock()
+	if collectMode {
+		sigs := make([]string, 0, len(collected))
+		for k := range collected {
+			sigs = append(sigs, k)
+		}
+		sort.Strings(sigs)
+		for _, k := range sigs {
+			fmt.Printf("COLLECTED %6d  %s\n", collected[k], k)
+		}
+		if os.Getenv("C16_COLLECT") == "2" {
+			for _, k := range sigs {
+				fmt.Printf("=== %s\n%s\n", k, collectedEx[k])
+			}
+		}
+	}
 	i, n := vstat.Shard()
 	keys := make([]string, 0, len(cellCounts))
 	for k := range cellCounts {
